@@ -3,7 +3,8 @@
    Model.v: gix-config (parser, section lookup, Body::{values,value_implicit}, File::{strings,string,
    boolean,integer,path}, value::normalize, Boolean/Integer/Path).  Spec.v: git 2.39.5 config.c. *)
 From GixV.Base Require Import Bytes BytesFacts Outcome.
-From GixV.C27 Require Import Model Spec Proofs ProofsNorm ProofsValue.
+From Coq Require Import ZArith.
+From GixV.C27 Require Import Model Spec Proofs ProofsNorm ProofsValue ProofsNum ProofsLookup.
 
 (* Case rules, lookup side: two keys whose section names and value names differ only in ASCII case
    (and whose subsections are identical) get the same answer for every query type. *)
@@ -72,3 +73,90 @@ Example case_rules_example :
   parse_true (bs "YeS") || parse_false (bs "YeS") = true /\
   same_header_key (Header (bs "Core") None None) (Header (bs "core") None None).
 Proof. repeat split. Qed.
+
+(* ---- numbers ------------------------------------------------------------------------------------
+   Class predicates on the TEXT of a value (ProofsNum.v; the harness' number_form mirrors them):
+   [leading_space] first byte is C white space; [num_radix_prefix] after an optional sign the text
+   starts with 0 followed by a digit or x/X; [num_no_digits] the text is one unit letter;
+   [bool_unit_suffix] sign? digits+ unit letter; [bool_outside_i32] sign? digits+ with a value in i64
+   but beyond 32 bits.  Class int-min is stated on the result. *)
+
+(* Integers: for EVERY byte string outside the known classes, Integer::try_from + to_decimal is
+   git_parse_signed (strtoimax, k/m/g factors, overflow -> error) with the int64 bound. *)
+Theorem int_is_git_except_known : forall v,
+  leading_space v = false -> num_radix_prefix v = false -> num_no_digits v = false ->
+  integer_of v <> IntOk i64_min ->
+  int_opt (integer_of v) = git_int (Some v).
+Proof. exact L_int_is_git. Qed.
+
+Theorem int_is_git_refuted :
+  (exists v, leading_space v = true /\ int_opt (integer_of v) <> git_int (Some v)) /\
+  (exists v, num_radix_prefix v = true /\ int_opt (integer_of v) <> git_int (Some v)) /\
+  (exists v, num_no_digits v = true /\ int_opt (integer_of v) <> git_int (Some v)) /\
+  (exists v, integer_of v = IntOk i64_min /\ int_opt (integer_of v) <> git_int (Some v)).
+Proof.
+  repeat split.
+  - exists (bs " 1"). split; [reflexivity | vm_compute; discriminate].
+  - exists (bs "010"). split; [reflexivity | vm_compute; discriminate].
+  - exists (bs "k"). split; [reflexivity | vm_compute; discriminate].
+  - exists (bs "-9223372036854775808"). split; [reflexivity | vm_compute; discriminate].
+Qed.
+
+(* Booleans: for EVERY byte string outside the known classes, Boolean::try_from is
+   git_parse_maybe_bool (keywords, the empty string, numbers through git_parse_int). *)
+Theorem bool_is_git_except_known : forall v,
+  leading_space v = false -> num_radix_prefix v = false -> num_no_digits v = false ->
+  bool_unit_suffix v = false -> bool_outside_i32 v = false ->
+  git_bool (Some v) = boolean_try_from v.
+Proof. exact L_bool_is_git. Qed.
+
+Theorem bool_is_git_refuted :
+  (exists v, bool_unit_suffix v = true /\ git_bool (Some v) <> boolean_try_from v) /\
+  (exists v, bool_outside_i32 v = true /\ git_bool (Some v) <> boolean_try_from v).
+Proof.
+  split.
+  - exists (bs "1k"). split; [reflexivity | vm_compute; discriminate].
+  - exists (bs "2147483648"). split; [reflexivity | vm_compute; discriminate].
+Qed.
+
+Example numbers_example :
+  let v := bs "-8589934591g" in
+  leading_space v = false /\ num_radix_prefix v = false /\ num_no_digits v = false /\
+  integer_of v = IntOk (-9223372035781033984)%Z /\ git_int (Some v) = Some (-9223372035781033984)%Z /\
+  bool_unit_suffix (bs "-7") = false /\ bool_outside_i32 (bs "-7") = false /\
+  boolean_try_from (bs "-7") = Some true.
+Proof. repeat split; vm_compute; reflexivity. Qed.
+
+(* ---- last one wins ---------------------------------------------------------------------------------
+   Among the sections matching the key's section and subsection (in file order), the last one with an
+   explicit value for the key decides string, integer and path; it also decides the boolean when no
+   later matching section mentions the key at all (a later key without `=` is an implicit true). *)
+Theorem lookup_last_wins : forall secs sec sub name ss1 s ss2 v,
+  sections_by secs sec sub = ss1 ++ s :: ss2 ->
+  value_implicit (sevents s) name = Ok (Some (Some v)) ->
+  Forall (no_value name) ss2 ->
+  exists a, lookup secs sec sub name = Ok a /\
+            a_string a = Some v /\ a_int a = Some (integer_of v) /\ a_path a = Some (interpolate v) /\
+            (Forall (no_key name) ss2 -> a_bool a = bool_of v).
+Proof. exact L_lookup_last_wins. Qed.
+
+(* the multi-value accessor lists the values of the matching sections in file order *)
+Theorem strings_in_file_order : forall secs sec sub name a,
+  lookup secs sec sub name = Ok a ->
+  a_strings a = (let vals := flat_map (fun s => body_values (sevents s) name) (sections_by secs sec sub) in
+                 if is_nil vals then None else Some vals).
+Proof. exact L_strings_in_file_order. Qed.
+
+Example last_wins_example :
+  match file_sections false (bs "[a]" ++ [x0a] ++ bs "k = 1" ++ [x0a] ++ bs "[A]" ++ [x0a] ++ bs "k = 2" ++ [x0a] ++ bs "[a]" ++ [x0a] ++ bs "j") with
+  | Ok secs =>
+      match sections_by secs (bs "a") None with
+      | [s1; s2; s3] =>
+          value_implicit (sevents s2) (bs "k") = Ok (Some (Some (bs "2"))) /\
+          no_key (bs "k") s3 /\
+          match lookup secs (bs "a") None (bs "k") with Ok a => a_string a = Some (bs "2") | _ => False end
+      | _ => False
+      end
+  | _ => False
+  end.
+Proof. vm_compute. repeat split. Qed.
